@@ -9,6 +9,7 @@ type Point struct {
 	N      int    // number of options
 	Chosen int    // option taken
 	Label  string // class label of the option taken
+	Free   bool   // taking another option here costs no deviation (thread level: not a preemption)
 }
 
 // Recorder replays a prefix and then takes the default; it records every point.
@@ -17,6 +18,13 @@ type Recorder struct {
 	Expect   []string // labels recorded by the parent execution for the prefix positions
 	Points   []Point
 	Diverged string // non-empty: replaying the prefix did not reproduce the parent's trace
+}
+
+// ChooseFree is Choose for points whose alternatives cost nothing when free is set.
+func (r *Recorder) ChooseFree(n int, free bool, label func(int) string) int {
+	c := r.Choose(n, label)
+	r.Points[len(r.Points)-1].Free = free
+	return c
 }
 
 func (r *Recorder) Choose(n int, label func(int) string) int {
@@ -65,7 +73,7 @@ func (r *Recorder) Labels() []string {
 func (r *Recorder) Deviations() int {
 	d := 0
 	for _, p := range r.Points {
-		if p.Chosen != 0 {
+		if p.Chosen != 0 && !p.Free {
 			d++
 		}
 	}
@@ -115,15 +123,19 @@ func (e *Explorer) Explore(prefix []int, expect []string, budget int) {
 		return
 	}
 	e.Visit(r)
-	if budget <= 0 {
-		return
-	}
 	ch := r.Choices()
 	lb := r.Labels()
 	for i := len(prefix); i < len(r.Points); i++ {
+		cost := 1
+		if r.Points[i].Free {
+			cost = 0
+		}
+		if budget-cost < 0 {
+			continue
+		}
 		for alt := 1; alt < r.Points[i].N; alt++ {
 			np := append(append([]int(nil), ch[:i]...), alt)
-			e.Explore(np, lb, budget-1)
+			e.Explore(np, lb, budget-cost)
 			if e.Capped {
 				return
 			}
